@@ -5,6 +5,7 @@ import (
 	"fmt"
 	"math"
 	"strconv"
+	"strings"
 	"unsafe"
 
 	"github.com/arnodel/golua/lib/base"
@@ -59,6 +60,7 @@ OuterLoop:
 				arg          interface{}
 				length, prec int
 				foundDot     bool
+				flags        formatFlags
 			)
 		ArgLoop:
 			for i++; i < len(format); i++ {
@@ -86,20 +88,23 @@ OuterLoop:
 					if !ok {
 						return "", errors.New("invalid value for integer format")
 					}
-					tmpMem += t.RequireBytes(10)
 					switch format[i] {
-					case 'u':
-						// Unsigned int
-						arg = uint64(n)
-						outFormat[i] = 'd' // No 'u' verb in Go
-					case 'i':
-						// Signed int
+					case 'b', 'U':
+						// Go verbs
+						tmpMem += t.RequireBytes(10)
 						arg = int64(n)
-						outFormat[i] = 'd' // No 'i' verb in Go
-					case 'x', 'X', 'o':
-						arg = uint64(n) // Need to convert to unsigned
 					default:
-						arg = int64(n)
+						// C verbs: fmt does not always format like C's printf
+						// (e.g. "%#x" or "%+.0d" with 0, "%#06x"), so format
+						// the value here and have fmt copy the result: a
+						// space flag does nothing to a string.
+						s := formatInt(format[i], n, flags, length, prec, foundDot)
+						tmpMem += t.RequireBytes(len(s))
+						arg = s
+						for k := start; k < i; k++ {
+							outFormat[k] = ' '
+						}
+						outFormat[i] = 's'
 					}
 					break ArgLoop
 				case 'a', 'A':
@@ -190,6 +195,9 @@ OuterLoop:
 							return "", errors.New("length too long")
 						}
 					} else {
+						if length == 0 && format[i] == '0' {
+							flags.zero = true
+						}
 						length = length*10 + int(format[i]-'0')
 						if length >= 100 {
 							return "", errors.New("precision too long")
@@ -197,6 +205,7 @@ OuterLoop:
 					}
 				case '+', '-', '#', ' ':
 					// flag characters
+					flags.set(format[i])
 				default:
 					// Unrecognised verbs
 					return "", errors.New("invalid format string")
@@ -216,6 +225,93 @@ OuterLoop:
 
 	// Release temporary memory
 	return fmt.Sprintf(string(outFormat), args...), nil
+}
+
+// formatFlags records the flags of a directive in a format string.
+type formatFlags struct {
+	minus, plus, space, sharp, zero bool
+}
+
+func (f *formatFlags) set(flag byte) {
+	switch flag {
+	case '-':
+		f.minus = true
+	case '+':
+		f.plus = true
+	case ' ':
+		f.space = true
+	case '#':
+		f.sharp = true
+	}
+}
+
+// formatInt formats n the way C's printf does for the conversions d, i, u, o,
+// x and X, given the flags, width and precision (if hasPrec is true) of the
+// directive.
+func formatInt(conv byte, n int64, flags formatFlags, width, prec int, hasPrec bool) string {
+	var (
+		u            = uint64(n) // The unsigned conversions take n as unsigned
+		neg          = n < 0 && (conv == 'd' || conv == 'i')
+		sign, prefix string
+		base         = 10
+	)
+	switch {
+	case neg:
+		u = -u
+		sign = "-"
+	case flags.plus:
+		sign = "+"
+	case flags.space:
+		sign = " "
+	}
+	switch conv {
+	case 'o':
+		base = 8
+	case 'x', 'X':
+		base = 16
+	}
+	digits := strconv.FormatUint(u, base)
+	if conv == 'X' {
+		digits = strings.ToUpper(digits)
+	}
+	if hasPrec {
+		// The precision is the minimum number of digits; 0 has no digits
+		// if it is 0.
+		if u == 0 && prec == 0 {
+			digits = ""
+		}
+		if len(digits) < prec {
+			digits = strings.Repeat("0", prec-len(digits)) + digits
+		}
+	}
+	if flags.sharp {
+		switch {
+		case conv == 'o' && !strings.HasPrefix(digits, "0"):
+			digits = "0" + digits
+		case (conv == 'x' || conv == 'X') && u != 0:
+			prefix = "0" + string(conv)
+		}
+	}
+	if flags.zero && !flags.minus && !hasPrec {
+		// Pad with zeros after the sign and the prefix
+		if k := width - len(sign) - len(prefix) - len(digits); k > 0 {
+			digits = strings.Repeat("0", k) + digits
+		}
+	}
+	return padString(sign+prefix+digits, width, flags.minus)
+}
+
+// padString pads s with spaces to the given width in bytes, on the right if
+// left is true (s is on the left) or else on the left.
+func padString(s string, width int, left bool) string {
+	if len(s) >= width {
+		return s
+	}
+	padding := strings.Repeat(" ", width-len(s))
+	if left {
+		return s + padding
+	}
+	return padding + s
 }
 
 // Quote returns a string representing the value as a valid Lua literal if
